@@ -680,8 +680,43 @@ func init() {
 		}
 		nCalls := 0
 		for _, f := range w.methodsOf("blockchain/v2", "scheduler") {
-			if f.Parent() != nil || !strings.HasPrefix(f.Name(), "handle") || f.Name() == "handle" {
+			// handlers, and helpers carved out of them that remove a peer and build the event to return
+			// (setPeerRange, which reports through its error, is treated below)
+			if f.Parent() != nil || f.Name() == "handle" || f.Name() == "removePeer" || f.Name() == "setPeerRange" {
 				continue
+			}
+			if !strings.HasPrefix(f.Name(), "handle") {
+				if len(rawCallsTo(w, f, "blockchain/v2#scheduler.removePeer")) == 0 {
+					continue
+				}
+				// a helper's event must be what its callers return
+				res := f.Signature.Results()
+				isEv := res.Len() >= 1 && strings.HasSuffix(res.At(0).Type().String(), ".Event")
+				c.Check(isEv, funcKey(f)+" :: a helper that removes a peer hands the event to report back", w.pos(f.Pos()), "returns an Event", "the helper removes a peer but returns no event")
+				for _, cs := range w.callersOf(f) {
+					cv, ok := cs.(*ssa.Call)
+					passed := ok
+					if ok {
+						for _, r := range *cv.Referrers() {
+							ex, isEx := r.(*ssa.Extract)
+							if !isEx {
+								continue
+							}
+							if ex.Index != 0 {
+								continue
+							}
+							for _, rr := range *ex.Referrers() {
+								if _, isRet := rr.(*ssa.Return); !isRet {
+									passed = false
+								}
+							}
+							if len(*ex.Referrers()) == 0 {
+								passed = false
+							}
+						}
+					}
+					c.Check(passed, funcKey(cs.Parent())+" :: returns the event built by "+f.Name(), w.ipos(cs), "return "+f.Name()+"(...)", "the event naming the removed peer is not what the handler returns")
+				}
 			}
 			ky := newKeyer()
 			for _, call := range rawCallsTo(w, f, "blockchain/v2#scheduler.removePeer") {
@@ -757,7 +792,7 @@ func init() {
 				c.Check(bad == "", key, pos, "scPeerError{peer} / scPeersPruned ∋ peer / scFinishedEv", bad+": a block fetched again from another peer then meets the stale one in the processor, whose enqueue panics (duplicate block) and stops the node")
 			}
 		}
-		c.Check(nCalls >= 6, "blockchain/v2.scheduler :: removePeer sites in handlers", "-", ">= 6", fmt.Sprintf("%d", nCalls))
+		c.Check(nCalls >= 5, "blockchain/v2.scheduler :: removePeer sites in handlers", "-", ">= 5", fmt.Sprintf("%d", nCalls))
 		// setPeerRange removes the peer and fails; its caller reports the peer it passed
 		if g := c.fn("blockchain/v2", "scheduler.setPeerRange"); g != nil {
 			for _, call := range rawCallsTo(w, g, "blockchain/v2#scheduler.removePeer") {
